@@ -29,7 +29,13 @@ for sid in ids:
                       "violation_lines": [l for l in pr.stdout.splitlines() if l.startswith("VIOLATION")][:6],
                       "other": [l for l in pr.stdout.splitlines() if l.startswith(("CHECKER-ERROR", "UNDECIDED"))][:6]}
         out[sid] = res
-        print(sid, {p: (v["exit"], v["failed_obligations"][:3], v["other"][:2]) for p, v in res.items()})
+        try:        # record as we go: a batch that is interrupted keeps what it has done
+            _prev = json.load(open(os.path.join(V, "seeded", "last_run.json")))
+        except Exception:
+            _prev = {}
+        _prev[sid] = res
+        json.dump(_prev, open(os.path.join(V, "seeded", "last_run.json"), "w"), indent=1)
+        print(sid, {p: (v["exit"], v["failed_obligations"][:3], v["other"][:2]) for p, v in res.items()}, flush=True)
     finally:
         subprocess.run(["git", "-C", "/repo", "checkout", "--", "."])
         for p, txt in saved.items():
